@@ -77,6 +77,19 @@ def gen() -> None:
         if needle not in txt:
             raise px.Unsupported(f"_parse_urlencoded read loop changed: missing {needle!r}")
     req = px.find_class(rq, "Request")
+    # statement skeletons of the glue that carries the limits from the request to the parsers (the conditions themselves are
+    # translated above and left as holes; the decoder and MultiPartParser.parse are pinned by C01's tools/pins/c01_decoder.txt)
+    fdp = px.find_class(fp, "FormDataParser")
+    holes = {ast.unparse(c.test): "<LIMIT-CONDITION>" for c in c_url}
+    sk = [("formparser.FormDataParser", px.find_method(fdp, "__init__"), None), ("formparser.FormDataParser", px.find_method(fdp, "parse_from_environ"), None),
+          ("formparser.FormDataParser", px.find_method(fdp, "_parse_multipart"), None),
+          ("formparser.FormDataParser", meth, holes),
+          ("formparser.MultiPartParser", px.find_method(px.find_class(fp, "MultiPartParser"), "__init__"), None),
+          ("formparser", px.find_def(fp, "parse_form_data"), None),
+          ("wrappers.request.Request", px.find_method(req, "make_form_data_parser"), None),
+          ("wrappers.request.Request", px.find_method(req, "_load_form_data"), None)]
+    px.check_pin("C10", "c10_limits_glue.txt", "\n".join(f"## {o}.{f.name}\n" + px.skeleton(f, h) for o, f, h in sk) + "\n",
+                 "statement skeleton of the form-limit glue")
     d_mem = px.const(px.find_assign(req, "max_form_memory_size"))
     d_parts = px.const(px.find_assign(req, "max_form_parts"))
     text = px.HEADER.format(tool="c10.py", src="sansio/multipart.py, formparser.py, wrappers/request.py")
